@@ -249,6 +249,39 @@ Definition builtin_call (f : string) (args : list V) : res V :=
     end
   else if String.eqb f "bool" then
     match args with [v] => let* t := v_truthy v in Ok (vb t) | _ => Raise TypeError end
+  else if String.eqb f "setitem" then            (* x[i] = v, desugared by flow.py for a single-owner x *)
+    match args with
+    | [VB b; VI i; VI v] =>
+      let n := len b in let j := if i <? 0 then n + i else i in
+      if (j <? 0) || (n <=? j) then Raise IndexError
+      else if (v <? 0) || (255 <? v) then Raise ValueError
+      else Ok (VB (slice None (Some j) b ++ [v] ++ slice (Some (j + 1)) None b))
+    | [VL l; VI i; v] =>
+      let n := len l in let j := if i <? 0 then n + i else i in
+      if (j <? 0) || (n <=? j) then Raise IndexError
+      else Ok (VL (slice None (Some j) l ++ [v] ++ slice (Some (j + 1)) None l))
+    | _ => Raise TypeError
+    end
+  else if String.eqb f "setslice" then           (* x[lo:hi] = y on a bytearray *)
+    match args with
+    | [VB b; lo; hi; VB y] =>
+      let* l := opt_index lo in let* h := opt_index hi in
+      let n := len b in
+      let a := match l with Some i => norm n i | None => 0 end in
+      let z := match h with Some i => norm n i | None => n end in
+      let z' := Z.max a z in
+      Ok (VB (slice None (Some a) b ++ y ++ slice (Some z') None b))
+    | _ => Raise TypeError
+    end
+  else if String.eqb f "enumerate" then
+    match args with
+    | [v] => let* l := v_iter v in
+             Ok (VL ((fix go (i : Z) (xs : list V) : list V :=
+                        match xs with [] => [] | x :: r => VT [VI i; x] :: go (i + 1) r end) 0 l))
+    | _ => Raise TypeError
+    end
+  else if String.eqb f "reversed" then
+    match args with [v] => let* l := v_iter v in Ok (VL (rev l)) | _ => Raise TypeError end
   else if String.eqb f "min" then
     match args with [VI a; VI b] => Ok (VI (Z.min a b)) | _ => Raise TypeError end
   else if String.eqb f "max" then
@@ -285,8 +318,18 @@ Definition builtin_meth (m : string) (recv : V) (args : list V) : res (V * V) :=
     match recv, args with VB b, [] => pure (Ok (VB b)) | _, _ => Raise TypeError end
   else if String.eqb m "bit_length" then
     match recv, args with VI z, [] => pure (Ok (VI (Z.log2 (Z.abs z) + (if z =? 0 then 0 else 1)))) | _, _ => Raise TypeError end
+  else if String.eqb m "reverse" then
+    match recv, args with
+    | VL l, [] => Ok (VN, VL (rev l))
+    | VB b, [] => Ok (VN, VB (rev b))
+    | _, _ => Raise TypeError
+    end
   else if String.eqb m "append" then
-    match recv, args with VL l, [v] => Ok (VN, VL (l ++ [v])) | _, _ => Raise TypeError end
+    match recv, args with
+    | VL l, [v] => Ok (VN, VL (l ++ [v]))
+    | VB b, [VI v] => if (v <? 0) || (255 <? v) then Raise ValueError else Ok (VN, VB (b ++ [v]))
+    | _, _ => Raise TypeError
+    end
   else if String.eqb m "extend" then
     match recv, args with
     | VL l, [v] => let* more := v_iter v in Ok (VN, VL (l ++ more))
